@@ -220,7 +220,8 @@ static size_t Type_Builtin_Size(struct Type* t) {
 }
 
 static int Type_Show(var self, var output, int pos) {
-  return format_to(output, pos, "%s", Type_Builtin_Name(self));
+  /* format_to returns how much was written, a Show instance the new position */
+  return pos + format_to(output, pos, "%s", Type_Builtin_Name(self));
 }
 
 static int Type_Cmp(var self, var obj) {
